@@ -519,6 +519,23 @@ def r5_compact_table(ctx):
                 ok = T.valid_iff([], q[4], want)
             ctx.obligation(ok)
             (ctx.ok if ok else ctx.violation)('C14.R5', 'C14.R5/base_conflicts/slot-b+c-occupied-iff-not-sentinel', an.fn.path, an.fn.site(), {'returned': T.show(q)[:240]}, cfg)
+        # set_successors: the row is stored at a base for which base_conflicts answered false on the same table state,
+        # i.e. no slot it writes is owned by another state (first-fit never overwrites)
+        log = calllog.run(ctx, cfg, CTB + 'set_successors')
+        nst = 0
+        for o in log.outs:
+            if o.kind != 'ret':
+                continue
+            sts = [c_ for c_ in o.state.calls if c_[0] == CTB + 'store_successors']
+            ok = len(sts) == 1 and sts[0][1][1] == T.var('a1', 'u32') and sts[0][1][3] == A(2)
+            if ok:
+                nst += 1
+                free = T.typed(('call', CTB + 'base_conflicts', (sts[0][1][0], sts[0][1][2], A(2))), 'bool')
+                ok = log.ip.entails(o.state, NOT(free)) and o.state.calls[-1] == sts[0]
+            ctx.obligation(ok)
+            (ctx.ok if ok else ctx.violation)('C14.R5', 'C14.R5/set_successors/row-stored-only-at-a-conflict-free-base', log.fn.path, log.fn.site(), {'calls': [T.show(calllog.call_term(c_))[:140] for c_ in o.state.calls], 'leaf_constraints': pc_text(o)}, cfg)
+        ctx.obligation(nst >= 1)
+        (ctx.ok if nst >= 1 else ctx.violation)('C14.R5', 'C14.R5/set_successors/store-site-found', log.fn.path, log.fn.site(), None, cfg)
         # sentinel in new and resize
         an = analyse(ctx, cfg, CTB + 'new', [T.mk_cmp('lt', I(0), T.var('a0', 'u32')), T.mk_cmp('lt', I(0), T.var('a1', 'u32'))], uninterpreted=lambda p: False)
         for o in an.rets:
